@@ -111,6 +111,46 @@ Theorem C13_restart_values_nan_binary64 : forall m t (e : engine float),
 Proof. intros m t e. exact (@restart_values_nan float (NumF m t) e (C13_clip_nan_binary64 m t)). Qed.
 Print Assumptions C13_restart_values_nan_binary64.
 
+(* restart clears the output variables (and the inputs) INDEPENDENTLY of the rule blocks: with any other list of blocks —
+   none at all, or blocks without rules — the outputs after restart are the same cleared ones *)
+Theorem C13_restart_outputs_independent_of_blocks : forall (T : Type) (N : Num T) (e : engine T) (bs : list (block T)),
+  e_inputs (restart (with_blocks e bs)) = e_inputs (restart e) /\
+  e_outputs (restart (with_blocks e bs)) = e_outputs (restart e) /\
+  e_blocks (restart (with_blocks e bs)) = map (@block_deactivated T N) bs.
+Proof. exact @restart_with_blocks. Qed.
+Print Assumptions C13_restart_outputs_independent_of_blocks.
+
+(* an engine WITHOUT rule blocks is in the restarted state after restart: every output it has is cleared *)
+Theorem C13_restart_without_blocks_state : forall (T : Type) (N : Num T) (e : engine T),
+  restarted_state (restart (with_blocks e [])) /\ e_blocks (restart (with_blocks e [])) = [] /\
+  List.length (e_outputs (restart (with_blocks e []))) = List.length (e_outputs e).
+Proof. exact @restart_without_blocks_state. Qed.
+Print Assumptions C13_restart_without_blocks_state.
+
+(* a state assigned by hand to an output variable (value, previous value, one more activated term) is erased *)
+Theorem C13_restart_erases_hand_state : forall (T : Type) (N : Num T) (e : engine T) oi ov v p t d,
+  nth_error (e_outputs e) oi = Some ov ->
+  restart (with_outputs e (set_nth oi (ov_with_state ov v p t d) (e_outputs e))) = restart e.
+Proof. exact @restart_erases_hand_state. Qed.
+Print Assumptions C13_restart_erases_hand_state.
+
+(* the scripts the correspondence runs: remove the rule blocks of a (used) engine, restart: the current engine is the
+   freshly built block-less engine, its outputs the cleared ones; assign a state by hand, restart: the restarted engine *)
+Theorem C13_remove_blocks_then_restart : forall (T : Type) (N : Num T) (s : @store T) e,
+  nth_error (fst s) (snd s) = Some e ->
+  exists s1 s2, run fe0 s [ORemoveBlocks; ORestart] = [Ok s1; Ok s2] /\
+                nth_error (fst s2) (snd s2) = Some (fresh (with_blocks e [])) /\
+                e_outputs (fresh (with_blocks e [])) = e_outputs (restart e).
+Proof. intros T N. exact (run_remove_blocks_restart fe0). Qed.
+Print Assumptions C13_remove_blocks_then_restart.
+
+Theorem C13_set_state_then_restart : forall (T : Type) (N : Num T) (s : @store T) e oi ov v p ti t d,
+  nth_error (fst s) (snd s) = Some e -> nth_error (e_outputs e) oi = Some ov -> nth_error (ov_terms ov) ti = Some t ->
+  exists s1 s2, run fe0 s [OSetOutputState oi v p ti d; ORestart] = [Ok s1; Ok s2] /\
+                nth_error (fst s2) (snd s2) = Some (restart e).
+Proof. intros T N. exact (run_set_state_restart fe0). Qed.
+Print Assumptions C13_set_state_then_restart.
+
 (* ---- 3. copies: true BY CONSTRUCTION of the model (values have no aliasing) — see the header *)
 (* an operation touches the current engine only *)
 Theorem C13_step_touches_current_only : forall (T : Type) (N : Num T) (s s' : @store T) (o : op) k e,
@@ -232,3 +272,35 @@ Proof.
   vm_compute in H. discriminate H.
 Qed.
 Print Assumptions C13_example_restart_and_copy.
+
+(* an engine WITHOUT rule blocks whose output carries state: the used engine with its blocks removed, and a block-less
+   engine whose state is assigned by hand (value 0.5, previous value 0.25, activated term big@0.75); both carry a
+   number, a previous value and a non-empty fuzzy output before restart; after restart both ARE the freshly built
+   block-less engine: value and previous value NaN, fuzzy output empty.  Same with a block that has no rules. *)
+Example C13_example_restart_without_blocks :
+  match @run float NF fe0 ([ex_engine true 0.25 PrimFloat.nan], 0%nat)
+          [OProcess; OSet 0 0.75%float; OProcess; ORemoveBlocks; ORestart],
+        @run float NF fe0 ([with_blocks (ex_engine true 0.25 PrimFloat.nan) []], 0%nat)
+          [OSetOutputState 0 0.5%float 0.25%float 1 0.75%float; ORestart],
+        @run float NF fe0 ([ex_engine true 0.25 PrimFloat.nan], 0%nat)
+          [OProcess; ODropRules 0; ORestart] with
+  | [Ok _; Ok _; Ok _; Ok s4; Ok s5], [Ok t1; Ok t2], [Ok _; Ok u2; Ok u3] =>
+      option_map (fun e => (List.length (e_blocks e),
+                            map (fun ov => (PrimFloat.is_nan (ov_value ov), PrimFloat.is_nan (ov_previous ov), List.length (ov_fuzzy ov))) (e_outputs e)))
+                 (nth_error (fst s4) 0) = Some (0%nat, [(false, false, 2%nat)]) /\
+      option_map (fun e => map (fun ov => (PrimFloat.eqb (ov_value ov) 0.5, PrimFloat.eqb (ov_previous ov) 0.25,
+                                           map (fun a => (term_name (a_term a), a_degree a)) (ov_fuzzy ov))) (e_outputs e))
+                 (nth_error (fst t1) 0) = Some [(true, true, [("big"%string, 0.75%float)])] /\
+      nth_error (fst s5) 0 = Some (@fresh float NF (with_blocks (ex_engine true 0.5 0.125) [])) /\
+      nth_error (fst t2) 0 = Some (@fresh float NF (with_blocks (ex_engine true 0.5 0.125) [])) /\
+      option_map (fun e => map (fun ov => (PrimFloat.is_nan (ov_value ov), PrimFloat.is_nan (ov_previous ov), ov_fuzzy ov)) (e_outputs e))
+                 (nth_error (fst s5) 0) = Some [(true, true, [])] /\
+      option_map (fun e => (map (fun b => List.length (b_rules b)) (e_blocks e),
+                            map (fun ov => (PrimFloat.is_nan (ov_value ov), List.length (ov_fuzzy ov))) (e_outputs e)))
+                 (nth_error (fst u2) 0) = Some ([0%nat], [(false, 2%nat)]) /\
+      option_map (fun e => map (fun ov => (PrimFloat.is_nan (ov_value ov), PrimFloat.is_nan (ov_previous ov), ov_fuzzy ov)) (e_outputs e))
+                 (nth_error (fst u3) 0) = Some [(true, true, [])]
+  | _, _, _ => False
+  end.
+Proof. vm_compute. repeat split; reflexivity. Qed.
+Print Assumptions C13_example_restart_without_blocks.
